@@ -27,7 +27,7 @@ const (
 
 type stats struct{ m map[string]int64 }
 
-func newStats() *stats { return &stats{m: map[string]int64{}} }
+func newStats() *stats                 { return &stats{m: map[string]int64{}} }
 func (s *stats) inc(k string, n int64) { s.m[k] += n }
 func (s *stats) add(o *stats) {
 	for k, v := range o.m {
